@@ -206,6 +206,14 @@ theorem integ_prod_diag (n a0 b0 : ℕ) :
     linear_combination (Ch * Bt * (n.factorial : ℚ)) * e
   exact key _ _
 
+/-! ### non-vacuity: `n = 1, a0 = 1, b0 = 0`  -/
+
+example : cf 2 1 0 1 = -6 := by decide
+example : Qp 1 1 0 = u - 2 * v := by
+  unfold Qp
+  simp [Finset.sum_range_succ, cf]
+  ring
+
 end
 
 end AurelVerif.HarmJacobi
